@@ -275,23 +275,40 @@ fn parts(ps: &[Vec<u8>], slice: bool) -> String {
         Err(()) => "PANIC".into(),
     }
 }
-fn seek(bytes: &[u8]) -> String {
+fn seek(bytes: &[u8], oracle: &mut Vec<String>) -> String {
+    let r = guard(|| -> R<(u64, bool)> {
+        let mut a = Archive::read_header(io::Cursor::new(bytes.to_vec()))?;
+        a.seek_to_end()?;
+        let next = a.has_next_archive();
+        // where the cursor stands: finalize() writes the 12-byte end marker at the current position and hands
+        // the cursor back; the offset is counted from the end of the 28-byte header (as the model does)
+        let cur = a.finalize()?;
+        Ok((cur.position() - 12 - 28, next))
+    });
+    // independent of the library: in a scannable archive the position found must be that of the AEND chunk
+    if let (Ok(Ok((off, _))), Some(cs)) = (&r, scan(bytes)) {
+        let want = cs.iter().find(|(_, t, _)| t == b"AEND").map(|(o, _, _)| *o as u64 - 28);
+        if want != Some(*off) {
+            oracle.push(format!("seek_to_end stopped at offset {} but the AEND chunk is at {:?}", off + 28, want.map(|w| w + 28)));
+        }
+    }
+    show_res(r, |(o, n)| format!("{} {}", o, n as u8))
+}
+/// append the way `pna append` and the library's own test do it: open, seek_to_end, add the (raw) entries of
+/// a donor archive, finalize; the underlying buffer is written in place
+fn append(base: &[u8], donor: &[u8]) -> String {
     show_res(
-        guard(|| -> R<(u64, bool)> {
-            use std::io::Seek;
-            let mut a = Archive::read_header(io::Cursor::new(bytes))?;
-            // position after the header: signature + AHED chunk (12 + 8)
+        guard(|| -> R<(Vec<u8>, bool)> {
+            let mut a = Archive::read_header(io::Cursor::new(base.to_vec()))?;
             a.seek_to_end()?;
             let next = a.has_next_archive();
-            // the position of the underlying cursor is not reachable through the API; finalize by
-            // writing nothing and reading the stream position through a clone of the state:
-            // Archive<Cursor<&[u8]>> cannot be unwrapped, so re-derive the offset by scanning
-            let _ = io::Cursor::new(&b""[..]).stream_position();
-            let cs = scan(bytes).ok_or_else(|| io::Error::other("unscannable"))?;
-            let off = cs.iter().find(|(_, t, _)| t == b"AEND").map(|(o, _, _)| *o as u64 - 28).unwrap();
-            Ok((off, next))
+            let mut d = Archive::read_header(donor)?;
+            for e in d.raw_entries() {
+                a.add_entry(e?)?;
+            }
+            Ok((a.finalize()?.into_inner(), next))
         }),
-        |(o, n)| format!("{} {}", o, n as u8),
+        |(b, n)| format!("{} {}", hex(&b), n as u8),
     )
 }
 
@@ -520,9 +537,129 @@ fn run(c: &Case, oracle: &mut Vec<String>) -> String {
             if s1 != s2 {
                 oracle.push("stream and slice part chaining disagree".into());
             }
-            if a[0] == "slice" { s2 } else { s1 }
+            let s = if a[0] == "slice" { s2 } else { s1 };
+            // optional third field (ignored by the model): `misnumbered:<k>` — the parts before index k form the
+            // head of a well-formed set and part k does not carry the number of its predecessor + 1 (C05)
+            if let Some(k) = a.get(2).and_then(|x| x.strip_prefix("misnumbered:")).and_then(|x| x.parse::<usize>().ok()) {
+                let head = &ps[..k];
+                let want = part_entry_ends(head).map(|e| e.len());
+                match (split_list(&s), want) {
+                    (Some((got, fin)), Some(want)) => {
+                        if fin == "OK" {
+                            oracle.push(format!("a part chain with a wrongly numbered part {} was read to a successful end", k));
+                        } else if fin != "ERR InvalidData" {
+                            oracle.push(format!("wrongly numbered part {}: ended with {} instead of InvalidData", k, fin));
+                        }
+                        if got.len() != want {
+                            oracle.push(format!("wrongly numbered part {}: {} entries returned, the parts before it complete {}", k, got.len(), want));
+                        }
+                    }
+                    _ => oracle.push("wrongly numbered part: no entry list".into()),
+                }
+            }
+            s
         }
-        "seek" => seek(&unhex(a[0]).unwrap()),
+        "ptrunc" | "palter" => {
+            let base: Vec<Vec<u8>> = if a[1].is_empty() { vec![] } else { a[1].split(',').map(|x| unhex(x).unwrap()).collect() };
+            let k: usize = a[2].parse().unwrap();
+            let n: usize = a[3].parse().unwrap();
+            let mut ps = base.clone();
+            let mask: u8 = if c.op == "palter" { a[4].parse().unwrap() } else { 0 };
+            if k < ps.len() {
+                if c.op == "ptrunc" {
+                    ps.truncate(k + 1);
+                    ps[k].truncate(n);
+                } else if n < ps[k].len() {
+                    ps[k][n] ^= mask;
+                }
+            } else {
+                ps.push(vec![]); // out of range: the model reads a missing part as an empty one
+            }
+            let (s1, s2) = (parts(&ps, false), parts(&ps, true));
+            if s1 != s2 {
+                oracle.push("stream and slice part chaining disagree".into());
+            }
+            let s = if a[0] == "slice" { s2 } else { s1 };
+            // ---- property oracle against the undamaged chain (C05, C06), independent of the model
+            let damaged = k < base.len() && n < base[k].len() && (c.op == "ptrunc" || mask != 0);
+            if let (true, Some(ends), Some((orig, ofin))) = (damaged, part_entry_ends(&base), split_list(&parts(&base, false))) {
+                if ofin == "OK" && ends.len() == orig.len() {
+                    let what = if c.op == "ptrunc" { "cut" } else { "altered byte" };
+                    // entries whose closing chunk lies wholly before the damage
+                    let expect = ends.iter().filter(|(pk, e)| *pk < k || (*pk == k && *e <= n)).count();
+                    match split_list(&s) {
+                        Some((got, fin)) => {
+                            if fin == "OK" {
+                                oracle.push(format!("multipart read completed successfully despite the {} in part {}", what, k));
+                            }
+                            if c.op == "ptrunc" && fin != "ERR UnexpectedEof" {
+                                oracle.push(format!("cut part chain ended with {} instead of UnexpectedEof", fin));
+                            }
+                            let len_field = c.op == "palter" && in_length_field(&base[k], n);
+                            if c.op == "palter" && !len_field && fin != "ERR InvalidData" {
+                                oracle.push(format!("altered part chain ended with {} instead of InvalidData", fin));
+                            }
+                            if got.len() > orig.len() || got[..] != orig[..got.len()] {
+                                oracle.push(format!("entries returned before the error differ from the originals ({} in part {})", what, k));
+                            } else if fin != "OK" && got.len() != expect {
+                                oracle.push(format!("returned {} entries, expected exactly the {} completed before the {} in part {}", got.len(), expect, what, k));
+                            }
+                        }
+                        None => {
+                            if s == "PANIC" {
+                                oracle.push(format!("reader panicked on the {}", what));
+                            } else if k > 0 || n >= 28 {
+                                oracle.push(format!("open of the first part failed although the {} is behind its header", what));
+                            }
+                        }
+                    }
+                }
+            }
+            s
+        }
+        "append" => {
+            let (base, donor) = (unhex(a[0]).unwrap(), unhex(a[1]).unwrap());
+            let s = append(&base, &donor);
+            // implementation-side oracle on plain archives (scannable, nothing behind AEND, no ANXT): the result
+            // holds the entries of the base followed by those of the donor, in order, once each, and nothing else
+            let plain = |b: &[u8]| scan(b).map(|cs| cs.iter().all(|(_, t, _)| t != b"ANXT")
+                && cs.last().map(|(o, _, d)| o + 12 + d.len()) == Some(b.len())
+                && entry_spans(b).map(|sp| sp.iter().map(|(s, e)| e - s).sum::<usize>() + 40) == Some(b.len())).unwrap_or(false);
+            if plain(&base) && plain(&donor) {
+                match s.strip_prefix("OK ").and_then(|r| r.split_once(' ')) {
+                    Some((hx, nx)) => {
+                        let out = unhex(hx).unwrap();
+                        let want_len = base.len() - 12 + (donor.len() - 40) + 12;
+                        if out.len() != want_len {
+                            oracle.push(format!("appended archive has {} bytes, expected {}", out.len(), want_len));
+                        }
+                        if nx != "0" {
+                            oracle.push("append reported a successor part for a plain archive".into());
+                        }
+                        // raw_items renders "LIST e1;e2|<fin>|<next>"
+                        let items = |b: &[u8]| -> Option<(Vec<String>, String)> {
+                            let r = raw_items(b, false);
+                            let f: Vec<&str> = r.strip_prefix("LIST ")?.split('|').collect();
+                            if f.len() != 3 { return None; }
+                            Some((if f[0].is_empty() { vec![] } else { f[0].split(';').map(|x| x.to_string()).collect() }, f[1].to_string()))
+                        };
+                        match (items(&base), items(&donor), items(&out)) {
+                            (Some((eb, _)), Some((ed, _)), Some((eo, fo))) => {
+                                let mut want = eb.clone();
+                                want.extend(ed);
+                                if eo != want || fo != "OK" {
+                                    oracle.push("append lost, duplicated or reordered entries".into());
+                                }
+                            }
+                            _ => oracle.push("appended archive does not read back".into()),
+                        }
+                    }
+                    None => oracle.push(format!("append to a plain archive failed: {}", s)),
+                }
+            }
+            s
+        }
+        "seek" => seek(&unhex(a[0]).unwrap(), oracle),
         "sizes" => sizes(a, oracle),
         _ => "BADCASE".into(),
     };
@@ -602,6 +739,39 @@ fn gen(prop: &str, tier: &str, seed: u64) -> Vec<String> {
             }
             let _ = name;
         }
+        // multipart: one altered byte inside any part of a chain (later parts stay in place), against the
+        // undamaged chain: never Ok, InvalidData outside length fields, exactly the entries completed before it
+        for (si, set) in [sample_parts(), sample_parts_api(120), sample_parts_api(75)].iter().enumerate() {
+            let all = set.iter().map(|p| hex(p)).collect::<Vec<_>>().join(",");
+            for k in 0..set.len() {
+                for n in 0..set[k].len() {
+                    let masks: Vec<u8> = if thorough { (0..8).map(|i| 1u8 << i).collect() }
+                        else if si == 0 { vec![1u8 << (n % 8), 0x80 >> (n % 7)] } else { vec![1u8 << ((n + k) % 8)] };
+                    for m in masks {
+                        v.push(format!("palter\t{}\t{}\t{}\t{}\t{}", rds[(n + m as usize) % 2], all, k, n, m));
+                    }
+                }
+            }
+        }
+        // a part that does not carry its predecessor's number + 1: part k replaced by part j (duplicated / foreign
+        // part), parts k and j swapped — for every k >= 1 (the number of the FIRST part is not checked by the library)
+        for set in [sample_parts(), sample_parts_api(120), sample_parts_api(75)] {
+            for k in 1..set.len() {
+                for j in 0..set.len() {
+                    if j == k {
+                        continue;
+                    }
+                    let mut repl = set.clone();
+                    repl[k] = set[j].clone();
+                    v.push(format!("parts\t{}\t{}\tmisnumbered:{}", rds[(k + j) % 2], repl.iter().map(|p| hex(p)).collect::<Vec<_>>().join(","), k));
+                    if j > k {
+                        let mut sw = set.clone();
+                        sw.swap(k, j);
+                        v.push(format!("parts\t{}\t{}\tmisnumbered:{}", rds[(k + j + 1) % 2], sw.iter().map(|p| hex(p)).collect::<Vec<_>>().join(","), k));
+                    }
+                }
+            }
+        }
         // sampled offsets on the larger ones
         for (_, b) in &samples {
             for _ in 0..(if thorough { 2000 } else { 150 }) {
@@ -633,6 +803,22 @@ fn gen(prop: &str, tier: &str, seed: u64) -> Vec<String> {
                 let mut parts: Vec<String> = ps[..k].iter().map(|p| hex(p)).collect();
                 parts.push(hex(&ps[k][..n]));
                 v.push(format!("parts\t{}\t{}", rds[n % 2], parts.join(",")));
+            }
+        }
+        // multipart, cut made by the model too and checked against the undamaged chain (entries complete before the
+        // cut, never Ok): the hand-laid set and two sets written by the library's split writer; every part, every
+        // byte in thorough, every byte near chunk boundaries and every third byte elsewhere in quick
+        for set in [sample_parts(), sample_parts_api(120), sample_parts_api(75)] {
+            let all = set.iter().map(|p| hex(p)).collect::<Vec<_>>().join(",");
+            for k in 0..set.len() {
+                let bounds: Vec<usize> = scan(&set[k]).map(|cs| cs.iter().map(|(o, _, _)| *o).collect()).unwrap_or_default();
+                for n in 0..set[k].len() {
+                    let near = bounds.iter().any(|b| n + 1 >= *b && n <= b + 8) || n + 13 >= set[k].len();
+                    if !thorough && !near && n % 3 != 0 {
+                        continue;
+                    }
+                    v.push(format!("ptrunc\t{}\t{}\t{}\t{}", rds[(n + k) % 2], all, k, n));
+                }
             }
         }
     }
@@ -705,6 +891,17 @@ fn gen(prop: &str, tier: &str, seed: u64) -> Vec<String> {
             v.push(format!("solid\t{}", hex(b)));
             v.push(format!("seek\t{}", hex(b)));
         }
+        // append: every sample as base, three donors each (C18: the position seek_to_end finds; C13: nothing lost)
+        for (i, (_, b)) in samples.iter().enumerate() {
+            for j in [1usize, 3, 8] {
+                let d = &samples[(i + j) % samples.len()].1;
+                v.push(format!("append\t{}\t{}", hex(b), hex(d)));
+            }
+        }
+        for p in sample_parts() {
+            v.push(format!("seek\t{}", hex(&p)));
+            v.push(format!("append\t{}\t{}", hex(&p), hex(&samples[2].1)));
+        }
         let n = if thorough { 8000 } else { 500 };
         for i in 0..n {
             // bracketed foreign layouts: random chunk order inside FHED..FEND
@@ -764,6 +961,10 @@ fn gen(prop: &str, tier: &str, seed: u64) -> Vec<String> {
                 _ => {
                     v.push(format!("solid\t{}", hex(&b)));
                     v.push(format!("seek\t{}", hex(&b)));
+                    if i % 8 == 3 {
+                        v.push(format!("append\t{}\t{}", hex(&b), hex(&samples[3].1)));
+                        v.push(format!("append\t{}\t{}", hex(&samples[3].1), hex(&b)));
+                    }
                 }
             }
         }
